@@ -405,6 +405,15 @@ pub fn cmd_open(a: &[&str]) -> String {
         "DIR" => {
             std::fs::create_dir_all(&path).ok();
         }
+        l if l.starts_with("LINK:") => {
+            // the path is a symbolic link to the file (e.g. /var/run/clockbound/shm -> /dev/shm/...)
+            let hex = &l[5..];
+            let bytes: Vec<u8> = (0..hex.len() / 2).map(|i| u8::from_str_radix(&hex[2 * i..2 * i + 2], 16).unwrap_or(0)).collect();
+            let target = format!("{}.target", path);
+            write_file(&target, &bytes);
+            let _ = std::fs::remove_file(&path);
+            let _ = std::os::unix::fs::symlink(&target, &path);
+        }
         hex => {
             let bytes: Vec<u8> = (0..hex.len() / 2).map(|i| u8::from_str_radix(&hex[2 * i..2 * i + 2], 16).unwrap_or(0)).collect();
             write_file(&path, &bytes);
@@ -424,6 +433,7 @@ pub fn cmd_open(a: &[&str]) -> String {
         Err(e) => format!("{:?} errno={}", e.kind, e.errno.0),
     });
     let _ = std::fs::remove_file(&path);
+    let _ = std::fs::remove_file(format!("{}.target", path));
     let _ = std::fs::remove_dir(&path);
     format!(
         "reader={} client={} fds_leaked={}",
